@@ -68,6 +68,7 @@ type gammEnv struct {
 	balMsg   balancer.MsgServer
 	ssMsg    stableswap.MsgServer
 	pmMsg    pmtypes.MsgServer
+	mag      int // per-history magnitude class: 0 ordinary, 1 reserves around 2^128, 2 reserves around 2^200
 }
 
 func (e *gammEnv) nextPoolId() uint64 { return e.h.App.PoolManagerKeeper.GetNextPoolId(e.ctx) }
@@ -358,8 +359,16 @@ func (e *gammEnv) randBig(max *big.Int) *big.Int {
 	return new(big.Int).Rand(e.r, new(big.Int).Add(max, big.NewInt(1)))
 }
 
-// fraction of x: tiny, small, moderate, all, more than all
+// fraction of x: tiny, small, moderate, all, more than all (never beyond what sdk.Int can hold)
 func (e *gammEnv) fracOf(x *big.Int) *big.Int {
+	v := e.fracOf0(x)
+	if v.BitLen() > 255 {
+		v = new(big.Int).Sub(pow2(255), big.NewInt(1))
+	}
+	return v
+}
+
+func (e *gammEnv) fracOf0(x *big.Int) *big.Int {
 	switch e.r.Intn(24) {
 	case 0:
 		return big.NewInt(1)
@@ -473,6 +482,14 @@ func runGamm(t *testing.T, seed int64, n int, dir string) {
 		o.Emit(fmt.Sprintf("gamm reset %d", e.nextPoolId()), "ok", false)
 		e.setCreationFee()
 		e.setTakerFee()
+		// per-history magnitude class (ordinary reserves already reach past 2^64)
+		e.mag = 0
+		if x := r.Intn(100); x < 7 {
+			e.mag = 1
+		} else if x < 14 {
+			e.mag = 2
+		}
+		o.Count([]string{"class.magnitude.ordinary", "class.magnitude.2^128", "class.magnitude.2^200"}[e.mag])
 		// funding: three rich users, one poor
 		for u := 0; u < gammNUsers; u++ {
 			for _, d := range e.denoms {
@@ -480,7 +497,7 @@ func runGamm(t *testing.T, seed int64, n int, dir string) {
 				if u == gammNUsers-1 {
 					amt = e.randBig(pow10(e.pick(3, 6, 9)))
 				} else {
-					amt = new(big.Int).Mul(big.NewInt(int64(1+r.Intn(9))), pow10(e.pick(24, 27, 30)))
+					amt = new(big.Int).Mul(big.NewInt(int64(1+r.Intn(9))), pow10([]int{e.pick(24, 27, 30), e.pick(48, 52, 56), e.pick(70, 72, 74)}[e.mag]))
 				}
 				if amt.Sign() == 0 {
 					continue
@@ -714,6 +731,12 @@ func (e *gammEnv) msgCreate() bool {
 				w = int64(1 + r.Intn(1048575))
 			}
 			amt := new(big.Int).Add(big.NewInt(1), e.randBig(pow10(e.pick(1, 3, 6, 9, 12, 18, 21))))
+			if e.mag > 0 && r.Intn(4) != 0 {
+				amt = new(big.Int).Add(big.NewInt(1), e.randBig(pow10([]int{0, e.pick(30, 38, 39, 42, 45), e.pick(50, 58, 64, 68)}[e.mag])))
+				if r.Intn(6) == 0 { // exactly around 2^127 / 2^128 / 2^129, resp. 2^200
+					amt = new(big.Int).Add(pow2([]int{0, e.pick(127, 128, 129), 200}[e.mag]), big.NewInt(int64(r.Intn(3)-1)))
+				}
+			}
 			if gammIsShare(d) {
 				amt = new(big.Int).Add(big.NewInt(1), e.randBig(pow10(e.pick(3, 12, 19))))
 			}
@@ -735,6 +758,9 @@ func (e *gammEnv) msgCreate() bool {
 		kind = "S"
 		var sfs []uint64
 		base := new(big.Int).Add(big.NewInt(1000), e.randBig(pow10(e.pick(4, 6, 9, 12))))
+		if e.mag > 0 && r.Intn(4) != 0 { // stableswap bounds post-scaled reserves by 10^34
+			base = new(big.Int).Add(big.NewInt(1000), e.randBig(pow10([]int{0, e.pick(20, 24, 27), e.pick(27, 30, 33)}[e.mag])))
+		}
 		for _, d := range ds {
 			sf := uint64(e.pick(1, 1, 1, 10, 1000, 1000000))
 			sfs = append(sfs, sf)
@@ -947,6 +973,9 @@ func (e *gammEnv) msgJoinSwapOut() bool {
 		}
 	}
 	maxIn := new(big.Int).Mul(pow10(40), big.NewInt(1))
+	if e.mag > 0 {
+		maxIn = pow10(76)
+	}
 	if math != "E" {
 		switch r.Intn(5) {
 		case 0:
@@ -1402,6 +1431,9 @@ func (e *gammEnv) msgSwapOut() bool {
 		}
 	}
 	maxIn := pow10(45)
+	if e.mag > 0 {
+		maxIn = pow10(76)
+	}
 	if okEst {
 		switch r.Intn(6) {
 		case 0:
